@@ -316,22 +316,30 @@ def main(run):
             bad[idx] = (h, (o[0], o[1], G.sev_names(o[2]), o[3]), verdict[sg][1])
     run.note("rejected_traces", n_bad)
     run.note("rejected_traces_texts", len(bad))
-    # confirmation in a process of its own (5 s of CPU); hangs of texts with a cyclic definition (the open
-    # finding) are confirmed only up to a cap, the rest is reported from the first run
-    confirm_cap = 200 if thorough else 6
-    tasks = []
-    cyc_seen = 0
-    unconfirmed = []
+    # confirmation in a process of its own (5 s of CPU).  Hangs are expensive to confirm: those of texts with a cyclic
+    # definition (the open finding) and, beyond a cap, the longest of the others are reported from the first run
+    cyc_cap = 200 if thorough else 6
+    hang_cap = 400 if thorough else 32
     for idx, (h, o, clause) in bad.items():
-        text = bytext[idx]
         if clause == "malformed":
-            raise MachineryError(f"malformed trace for {text!r}")
+            raise MachineryError(f"malformed trace for {bytext[idx]!r}")
+    first_tags = dict(pmap(G.classify_task, [(idx, bytext[idx], o[0], o[1]) for idx, (h, o, clause) in bad.items()]))
+    tasks = []
+    unconfirmed = []
+    n_cyc = n_hang = 0
+    for idx, (h, o, clause) in sorted(bad.items(), key=lambda kv: len(bytext[kv[0]])):
+        text = bytext[idx]
+        tags = first_tags[idx]
         if o[0] == "hang":
-            tags = G.shape_tags(text, o[0], o[1])
             if "shape:cyclic-symbol-definition" in tags:
-                cyc_seen += 1
-                if cyc_seen > confirm_cap:
+                n_cyc += 1
+                if n_cyc > cyc_cap:
                     unconfirmed.append((text, o, tags + ["handler:" + h]))
+                    continue
+            else:
+                n_hang += 1
+                if n_hang > hang_cap:
+                    unconfirmed.append((text, o, tags + ["handler:" + h, "shape:hang"]))
                     continue
         tasks.append((idx, text, h, 5.0))
     groups = {}                               # signature -> [count, shortest text, o, tags, handler]
@@ -346,9 +354,15 @@ def main(run):
         g[0] += 1
         if len(text) < len(g[1]):
             g[1], g[2], g[3], g[4] = text, o2, tags, h
-    run.note("cyclic_hangs_reported_without_confirmation", len(unconfirmed))
+    run.note("hangs_reported_without_confirmation", len(unconfirmed))
+    hang_confirmed = any(k[0] == "hang" and not k[1] for k in groups)
     for text, o, tags in unconfirmed:
-        report_bad(run, text, o, tags, "grammar text with a cyclic definition never terminates (first run; confirmation capped)")
+        if "shape:cyclic-symbol-definition" in tags:
+            report_bad(run, text, o, tags, "grammar text with a cyclic definition never terminates (first run; confirmation capped)")
+        elif hang_confirmed:
+            groups[("hang", False)][0] += 1
+        else:
+            run.bump("bad_outcomes_not_confirmed_in_fresh_process")
     # shortest example of every kind of bad run, minimised (not for the open finding: its examples are known)
     todo = [(k, g) for k, g in groups.items() if not (k[1] and k[0] in ("hang", "exception:DeferredCycle@deferred.py:__enter__", "exception:RecursionError"))]
     mins = pmap(G.minimise_task, [(g[1], g[4], k[0], 2.0 if k[0] == "hang" else 5.0, 30 if k[0] == "hang" else 120) for k, g in todo])
